@@ -30,6 +30,10 @@ void harness(void) {
   struct Loc r3; __CPROVER_assume(r3.m_x < p.m_x || r3.m_x > v.m_x);
   __CPROVER_assert(!ray_hits_x_range(p, v, r3), "L outside the x-range is not counted");
   struct Loc w = v; __CPROVER_assert(!ray_hits_x_range(v, w, ray), "L vertical segments are not counted by the x-range rule");
+  /* the ray starts AT a vertex of another ring (rings touching in the query location v): the segment v -> q that starts there is judged by the dedicated same-start rule of
+     find_enclosing_ring (cross product with the direction of the new ring); the segment p -> v that ends there has cross product 0 and would be counted as "below" by z >= 0,
+     i.e. the touching ring would be counted once too often - the x-range rule must leave it out */
+  __CPROVER_assert(!ray_hits_x_range(p, v, v), "L a segment that ends exactly in the query location is left to the same-start rule (touching rings are not counted twice)");
   __CPROVER_assert(0, "canary"); }''', replay=('c10_area', lambda cex, o: ['search']),
                               note='expression block extracted from find_enclosing_ring; all int32 coordinates'))
 
@@ -37,6 +41,6 @@ TRUSTED = []
 ASSUMPTIONS = []
 NOT_DECIDED = ['validity and coverage of assembled areas as a whole', 'segment intersection (calculate_intersection), segment ordering, ring building, inner/outer assignment beyond the x-range rule', 'independence of member order and way direction']
 LEVEL_TEXT = ('Proof of one decision kernel only: the x-range rule of the vertical ray cast that decides inner/outer nesting (find_enclosing_ring) counts a boundary vertex lying on the ray exactly once, '
-              'counts the interior of the x-range of a segment, and ignores segments beside the ray and vertical segments - for all int32 coordinates. The property as a whole (valid multipolygons, exact coverage) '
+              'counts the interior of the x-range of a segment, ignores segments beside the ray and vertical segments, and leaves a segment that ends in the query location itself to the same-start rule (rings touching there are not counted twice) - for all int32 coordinates. The property as a whole (valid multipolygons, exact coverage) '
               'is not decided by this technique.')
 LEVEL_NOTE = ('Trusted: CBMC, extraction rules (the condition is extracted as an expression block). Everything else about area assembly is outside what function contracts could reach in this round.')
